@@ -75,6 +75,11 @@ fn values<H: HandRanker>(h: &H) -> [Option<u16>; 5] {
         g(|| h.hand_rank_validated().value),
     ]
 }
+/// "entry point = value" for every entry point that did not return `exp`.
+fn disagree(got: &[Option<u16>], exp: u16) -> String {
+    let v: Vec<String> = got.iter().enumerate().filter(|(_, x)| **x != Some(exp)).map(|(e, x)| format!("{} = {}", EP[e], show(*x))).collect();
+    v.join(", ")
+}
 fn words_of<const N: usize>(ix: &[usize]) -> [u32; N] {
     let mut w = [0u32; N];
     for i in 0..N {
@@ -114,12 +119,10 @@ pub fn c01(c: &Ctx) {
                 let h = Five::from(w);
                 let v = values(&h);
                 let got = [v[0], v[1], v[2], v[3], v[4], g(|| evaluate::five_cards(w))];
-                for (e, x) in got.iter().enumerate() {
-                    if *x != Some(exp) {
-                        fail_at!(sub, at(it, k), rank_case(&w), format!("Five {}", EP[e]), exp, show(*x));
-                    }
-                    k += 1;
+                if got.iter().any(|x| *x != Some(exp)) {
+                    fail_at!(sub, at(it, k), rank_case(&w), "Five, entry points that disagree", exp, disagree(&got, exp));
                 }
+                k += 1;
             }
         });
     });
@@ -169,12 +172,10 @@ pub fn c02(c: &Ctx) {
         &|it, k, ix, w| {
             let exp = r.best(ix);
             let v = ranker_n!(w.len(), w, h => values(&h));
-            for e in 0..3 {
-                if v[e] != Some(exp) {
-                    fail_at!(sub, at(it, *k), rank_case(w), format!("{}-card {}", w.len(), EP[e]), exp, show(v[e]));
-                }
-                *k += 1;
+            if v[..3].iter().any(|x| *x != Some(exp)) {
+                fail_at!(sub, at(it, *k), rank_case(w), format!("{}-card, entry points that disagree", w.len()), exp, disagree(&v[..3], exp));
             }
+            *k += 1;
         },
         &|o| !sub.want(o),
     );
